@@ -18,11 +18,19 @@ class Sim(object):
         if pre is not None:
             pre(self.h)  # something that happens to the project before the observed run
         self.obs = Observer(phases=phases).install(self.p)
+        self.t0 = getattr(self.h, "t0", 0)  # time at which the observed run starts ("append" warm start)
+        # spec["backward"]: the observed run is the inner run of backward_simulate (dependencies reversed; the logs
+        # are left in the time of that run) - only for oracles that do not look at dependencies
+        self.backward = bool(spec.get("backward")) and not spec.get("warm")
         try:
-            S.simulate(self.p, self.opts)
+            if self.backward:
+                S.backward_simulate(self.p, self.opts, reverse_log_information=False)
+            else:
+                S.simulate(self.p, self.opts, **getattr(self.h, "sim_extra", {}))
         finally:
             Observer.uninstall(self.p)
-        self.steps = self.obs.steps
+        # steps are indexed by time: an appended run is preceded by one empty entry per step of the earlier run
+        self.steps = [{} for _ in range(self.t0)] + self.obs.steps
         self.N = len(self.p.cost_list)
         self.absn = set(self.opts.get("abs", []))
         self.tasks = spec["tasks"]
@@ -31,6 +39,10 @@ class Sim(object):
         self.float_mode = bool(spec.get("float_mode"))
         self.warm = (spec.get("warm") or {}).get("mode")
         self.exempt = [t.get("prog", 0.0) >= 1.0 - TOL for t in self.tasks]
+        if getattr(self.h, "sim_extra", {}).get("initialize_log_info") is False:
+            # BaseTask.initialize marks a task that is complete by default progress FINISHED only when state and log
+            # are initialized together; in an appended run it starts NONE with nothing left to do like any other task
+            self.exempt = [False] * len(self.tasks)
         self.tids = [S.tid(i) for i in range(self.n)]
         self.wids = [S.wid(i) for i in range(len(spec["workers"]))]
         self.fids = [S.fid(i) for i in range(len(spec["facs"]))]
@@ -195,13 +207,13 @@ def check_c01(sim, res):
         if len(log) != sim.N:
             res.fail("C01.log_length", "task %s state log has %d entries, %d steps" % (task.ID, len(log), sim.N))
             continue
-        for k in range(sim.N):
+        for k in range(sim.t0, sim.N):
             live = sim.steps[k]["recorded"]["tasks"][task.ID][T_STATE]
             exp = S.READY if (k in sim.absn and live == S.WORKING) else live
             if int(log[k]) != exp:
                 res.fail("C01.log_vs_live", "task %s log[%d]=%d, live %d (absence step: %s)" % (task.ID, k, int(log[k]), live, k in sim.absn))
                 break
-        for k in range(1, sim.N):
+        for k in range(sim.t0 + 1, sim.N):
             a, b = int(log[k - 1]), int(log[k])
             if RANK[b] < RANK[a] and not (a == S.WORKING and b == S.READY and k in sim.absn):
                 res.fail("C01.log_backward", "task %s log moves %d -> %d at index %d" % (task.ID, a, b, k), sig="%d>%d" % (a, b))
@@ -285,15 +297,15 @@ def check_c02(sim, res):
         prev = t["work"] * (1.0 - t["prog"])
         rich = False
         finished_at = None
-        for k in range(sim.N):
+        for k in range(sim.t0, sim.N):
             upd = sim.steps[k]["updated"]["tasks"][task.ID]
             alloc = sim.steps[k]["allocated"]["tasks"][task.ID]
             live_upd, live = upd[T_STATE], alloc[T_STATE]
             if live_upd == S.FINISHED and not sim.exempt[ti]:
                 if finished_at is None:
                     finished_at = k
-                    if k == 0:
-                        res.fail("C02.finish_early", "task %s FINISHED at step 0 without complete default progress" % task.ID)
+                    if k == sim.t0:
+                        res.fail("C02.finish_early", "task %s FINISHED at the first step without complete default progress" % task.ID)
                     else:
                         before = sim.steps[k - 1]["recorded"]["tasks"][task.ID]
                         if not before[T_REM] < TOL:
@@ -405,6 +417,19 @@ def check_c03(sim, res):
                             contention = True
     # the same relations on the logs
     N = sim.N
+    short = [
+        "%s.%s has %d" % (o.ID, name, len(getattr(o, name)))
+        for objs, names in (
+            (sim.h.tasks, ("allocated_worker_id_record", "allocated_facility_id_record")),
+            (list(sim.h.workers) + list(sim.h.facs), ("assigned_task_id_record", "state_record_list")),
+        )
+        for o in objs
+        for name in names
+        if len(getattr(o, name)) != N
+    ]
+    if short:
+        res.fail("C03.log_length", "the run has %d steps but %s" % (N, ", ".join(short[:4])), sig=short[0].split(".")[1].split()[0])
+        N = 0
     for k in range(N):
         holders = {}  # (kind, resource ID) -> task IDs: worker and facility IDs live in separate name spaces
         for ti, task in enumerate(sim.h.tasks):
@@ -670,7 +695,7 @@ def check_c10a(sim, res):
     spec = sim.spec
     fm = sim.float_mode
     p = sim.p
-    inside = [k for k in sorted(sim.absn) if k < sim.N]
+    inside = [k for k in sorted(sim.absn) if sim.t0 <= k < sim.N]
     working_inside = False
     for k in inside:
         upd = sim.steps[k]["updated"]
@@ -678,7 +703,7 @@ def check_c10a(sim, res):
         for ti, task in enumerate(sim.h.tasks):
             t = sim.tasks[ti]
             rem = task.remaining_work_amount_record_list
-            prev = rem[k - 1] if k > 0 else t["work"] * (1.0 - t["prog"])
+            prev = rem[k - 1] if k > sim.t0 else t["work"] * (1.0 - t["prog"])
             live = alloc["tasks"][task.ID][T_STATE]
             if live == S.WORKING:
                 working_inside = True
@@ -694,20 +719,20 @@ def check_c10a(sim, res):
                         "automatic task %s (live state %d, flag %s): remaining %r -> %r at absence step %d" % (task.ID, live, sim.opts.get("auto_abs"), prev, rem[k], k),
                         sig="flag" if sim.opts.get("auto_abs") else "noflag",
                     )
-            if k > 0:
+            if k > sim.t0:
                 for rec, what in ((task.allocated_worker_id_record, "worker"), (task.allocated_facility_id_record, "facility")):
                     new = set(rec[k] or []) - set(rec[k - 1] or [])
                     if new:
                         res.fail("C10.allocated_in_absence", "task %s newly holds %s %s at absence step %d" % (task.ID, what, sorted(new), k), sig=what)
-            elif task.allocated_worker_id_record[0] or task.allocated_facility_id_record[0]:
-                res.fail("C10.allocated_in_absence", "task %s holds resources at absence step 0" % task.ID, sig="step0")
+            elif task.allocated_worker_id_record[k] or task.allocated_facility_id_record[k]:
+                res.fail("C10.allocated_in_absence", "task %s holds resources at absence step %d, the first of the run" % (task.ID, k), sig="step0")
         for kind, objs in (("worker", sim.h.workers), ("facility", sim.h.facs)):
             for r in objs:
                 if int(r.state_record_list[k]) != S.R_ABSENCE:
                     res.fail("C10.not_logged_absence", "%s %s logged %d at project-wide absence step %d" % (kind, r.ID, int(r.state_record_list[k]), k), sig=kind)
                 if r.cost_list[k] != 0.0:
                     res.fail("C10.charged_in_absence", "%s %s charged %r at absence step %d" % (kind, r.ID, r.cost_list[k], k), sig=kind)
-                if k > 0:
+                if k > sim.t0:
                     new = set(r.assigned_task_id_record[k] or []) - set(r.assigned_task_id_record[k - 1] or [])
                     if new:
                         res.fail("C10.allocated_in_absence", "%s %s newly assigned %s at absence step %d" % (kind, r.ID, sorted(new), k), sig=kind + "_side")
@@ -716,7 +741,7 @@ def check_c10a(sim, res):
                 res.fail("C10.charged_in_absence", "%s cost %r at absence step %d" % (label, lst[k], k), sig=label.split()[0])
     # individually absent resources on working steps: no progress (C02 reference), no cost
     indiv = False
-    for k in range(sim.N):
+    for k in range(sim.t0, sim.N):
         if k in sim.absn:
             continue
         for kind, objs, specs in (("worker", sim.h.workers, spec["workers"]), ("facility", sim.h.facs, spec["facs"])):
@@ -737,7 +762,7 @@ def check_c10a(sim, res):
             if not absent:
                 continue
             rem = task.remaining_work_amount_record_list
-            prev = rem[k - 1] if k > 0 else sim.tasks[ti]["work"] * (1.0 - sim.tasks[ti]["prog"])
+            prev = rem[k - 1] if k > sim.t0 else sim.tasks[ti]["work"] * (1.0 - sim.tasks[ti]["prog"])
             if not _feq(prev - rem[k], exp, fm) and not _feq(rem[k], prev - exp, fm):
                 res.fail("C10.absent_resource_progress", "task %s step %d: remaining %r -> %r but the present resources contribute %r" % (task.ID, k, prev, rem[k], exp))
     res.cls("absence_inside_run", bool(inside))
@@ -796,7 +821,7 @@ def check_c14(sim, res):
         for k in range(sim.N):
             tstates = [int(sim.h.tasks[ti].state_record_list[k]) for ti in comp_tasks[ci]]
             rel(log[k], tstates, "in the logs at index %d" % k, c_id, "log_")
-            if k > 0:
+            if k > 0 and k != sim.t0:  # (an appended run starts again from the initial states at index t0)
                 if log[k - 1] != S.NONE and log[k] == S.NONE:
                     res.fail("C14.back_to_none", "component %s log returns to NONE at index %d" % (c_id, k), sig="log")
                 if log[k - 1] == S.FINISHED and log[k] != S.FINISHED:
